@@ -22,6 +22,9 @@ CHECKS = {
  'C06': dict(cat='exploration', tech='differential data-image comparison: layout tables and bit-field images emitted by cproc vs ELF objects from clang --target (3 targets) and gcc',
              text='For generated struct/union/enum types (every scalar member type, arrays, nesting, anonymous members, bit-fields of all widths incl. zero-width/unnamed, packed, _Alignas, flexible arrays) the table {sizeof, _Alignof, offsetof and sizeof of every member path} and one all-ones image per bit-field are compared byte for byte with clang --target for x86_64, aarch64 and riscv64 (gcc must agree on x86-64); C23 enum typing is compared with expectations written from N3029/N3030.',
              note='Trusted: clang 14 psABI implementations; aligned(n) attributes are not generated (diagnosed as unsupported by the tree).', ref='4/C06'),
+ 'C07': dict(cat='exploration', tech='differential data-image comparison (bytes, padding, relocations, size, alignment) vs clang --target/gcc objects; run-time member dump of automatic objects (IL executed under ASan)',
+             text='Generated (type, initialiser) pairs - positional, designated, mixed, overriding, nested designators, brace elision, strings of every prefix, incomplete arrays, compound literals, address constants - are emitted as static/thread objects and compared byte for byte (relocations symbolically, string targets by content) with clang --target for three targets and gcc; the same generator at block scope prints every scalar leaf at run time and is compared with gcc/clang executions.',
+             note='Shapes on which the standard is disputed (re-initialising a whole sub-aggregate after element initialisers, DR 413) are not generated; padding of automatic objects is not compared.', ref='4/C07'),
  'C03': dict(cat='exploration', tech='online validator (re-implemented QBE parse/typecheck/SSA rules) over every accepted output; strace write-fault injection',
              text='Every module printed with exit status 0 (suite, corpus, generated, odd-shaped and mutated inputs, cproc\'s own sources; three targets) is parsed and checked by an independent IL validator; output faults are injected at the k-th write.',
              note='Trusted: vf.ilcheck (silent on the 159 stored .qbe files and the self-compiled IL); data sizes vs C objects are judged by C06/C07.', ref='4/C03'),
